@@ -10,7 +10,7 @@ partial def decBody (j : Json) : Except String Body := do
   items.foldrM (fun it acc => do pure (Body.cons (← decStmt it) acc)) Body.nil
 partial def decStmt (j : Json) : Except String Stmt := do
   match (← getStr j "k") with
-  | "assign" => pure (.assign (← getStr j "n"))
+  | "assign" => pure (.assign (← getStr j "n") (← getBool j "eff"))
   | "read" => pure (.read (← getStr j "n"))
   | "scope" => pure (.scope (← decBody (← fld j "b")))
   | s => .error s!"bad-op: statement kind {s}"
@@ -21,7 +21,7 @@ partial def encBody : Body → List Json
   | .nil => []
   | .cons s t => encStmt s :: encBody t
 partial def encStmt : Stmt → Json
-  | .assign n => jobj [("k", jstr "assign"), ("n", jstr n)]
+  | .assign n e => jobj [("k", jstr "assign"), ("n", jstr n), ("eff", jbool e)]
   | .read n => jobj [("k", jstr "read"), ("n", jstr n)]
   | .scope b => jobj [("k", jstr "scope"), ("b", jarr (encBody b))]
 end
@@ -34,7 +34,8 @@ def opScopeClean (j : Json) : Except String Json := do
                 ("own_reads", jarr (names.map fun n => jarr [jstr n, jnat (b.ownReads n)])),
                 ("nested_libcst", jarr (names.map fun n => jarr [jstr n, jnat (b.nestedL n)])),
                 ("cleaned", jarr (encBody (b.clean .libcst))), ("cleaned_python", jarr (encBody (b.clean .python))),
-                ("cleaned_old", jarr (encBody (b.clean .ownOnly))),
+                ("cleaned_old", jarr (encBody (b.clean .ownOnly))), ("cleaned_no_guard", jarr (encBody (b.clean .libcst false))),
+                ("effects", jarr (b.effects.map jstr)), ("effects_after", jarr ((b.clean .libcst).effects.map jstr)),
                 ("unresolved", jarr ((b.unresolved []).map jstr)), ("unresolved_after", jarr (((b.clean .libcst).unresolved []).map jstr)),
                 ("unresolved_after_old", jarr (((b.clean .ownOnly).unresolved []).map jstr))]
 
